@@ -55,4 +55,16 @@ CHECKS = {
    text='All paths: capture results equal what a well-formed waveform with <= 3/4 symbolic entries encodes (initial, earliest, latest, final, value before T, overflow mark) for CPU and GPU kernels; returned rise/fall counts equal '
         'the emitted transitions; overflow marker clear implies identity with the unlimited-capacity waveform and operand markers propagate; accumulators equal the weighted transition counts for symbolic weights.',
    note='sd > 0 capture outside the claim. Accumulator index patterns enumerated. Bounded as C03.'),
+ 'C07': dict(engine='E3-tables + E1-lanes', category='model_checking', design_ref='DESIGN.md §2.3, §5 C07',
+   technique='SMT queries over the op/level/memory tables published by the real SimOps (free variables: op pairs, operands) + symbolic equivalence of the real LogicSim under permuted level-internal op orders',
+   text='Per corpus circuit, option setting and capacity setting the real constructor is run and z3 decides that no op writes a region another op of the same level reads or writes and that every operand is an '
+        'interface slot or produced in a strictly earlier level - which makes all orders and interleavings of a level equivalent. Confirmed by running the real LogicSim symbolically with reversed / shuffled rows '
+        '(z3 equality for all stimuli) and WaveSim / WaveSimCuda concretely with permuted rows and a permuted thread order of the mock GPU launcher.',
+   note='Structure enumerated (corpus). Per-op footprint (reads only operand regions, writes only the output region) comes from lemma L-FP of C03. WaveSim permutation runs are concrete and supplementary.'),
+ 'C08': dict(engine='E2-symx + E3-tables', category='model_checking', design_ref='DESIGN.md §5 C08',
+   technique='inductive step of the real Heap.alloc/free from arbitrary valid pre-states by forking symbolic execution (symbolic sizes, symbolic-key dict) + SMT queries over real SimOps memory maps against an independent liveness analysis',
+   text='Allocator: for every free/used pattern admitted by the representation invariant with <= 5/6 chunks, symbolic sizes and request size, all paths of one real alloc/free are explored and z3 proves invariant preservation, '
+        'non-overlap with live chunks, coalescing and the high-water mark - an induction over histories of any length. Map: z3 decides per (circuit, options, capacity vector) that no two simultaneously live signals overlap, '
+        'regions stay inside c_len and aliases are exact.',
+   note='Chunk-count bound (allocator inspects a chunk and its two neighbours); liveness oracle in vlib/tables.py is trusted; circuit structure and capacity vectors enumerated.'),
 }
